@@ -142,6 +142,7 @@ int rename(const char* a, const char* b) {
 }
 
 // ---------------------------------------------------------------------------------------
+static long g_bi = 0;   // ordinal (1-based) of the behaviour of the script that is running: lets a replay file carry its script
 struct Driver {
     std::unique_ptr<ChunkStore> store;
     Config cfg;
@@ -197,7 +198,7 @@ struct Driver {
             key_to_c.clear();
             for (long k = 0; k < 64; ++k) key_to_c[chunk_id_to_string(cid(k))] = k;
             make_store();
-            ev::Ev e("reset"); e.i("persistent", persistent).i("wipe", cfg.storage_wipe_on_expiry).i("deflt", cfg.default_chunk_ttl.count() * 1000); common(e); e.emit();
+            ev::Ev e("reset"); e.i("bi", g_bi).i("persistent", persistent).i("wipe", cfg.storage_wipe_on_expiry).i("deflt", cfg.default_chunk_ttl.count() * 1000); common(e); e.emit();
         } else if (c.op == "put") {
             long id = c.i("c"), b = c.i("b"), ttl = c.i("ttl");
             { ev::Ev e("begin"); e.s("what", "put").i("c", id).i("b", b).i("ttl", ttl * 1000).i("t", vclock::now_ns() / 1'000'000LL); e.emit(); std::fflush(ev::out()); }
@@ -259,13 +260,14 @@ int main(int argc, char** argv) {
     auto behaviours = read_behaviours(argv[1]);
     if (!crash) {
         Driver d;
-        for (auto& b : behaviours) for (auto& c : b) d.run(c);
+        for (auto& b : behaviours) { ++g_bi; for (auto& c : b) d.run(c); }
         std::fflush(ev::out());
         return 0;
     }
     // crash mode: behaviour = prefix ops, "crashop", the interrupted op, (rest ignored)
     long runs = 0;
     for (auto& b : behaviours) {
+        ++g_bi;
         size_t mark = b.size();
         for (size_t i = 0; i < b.size(); ++i) if (b[i].op == "crashop") { mark = i; break; }
         if (mark + 1 >= b.size()) continue;
